@@ -234,7 +234,13 @@ namespace verif
             cur_nontrivial = true;
             cur_hash       = hash;
         }
-        void sample(const std::string& s) { cur_sample = s; }
+        void sample(const std::string& s)
+        {
+            cur_sample = s;
+            static const bool dbg = getenv("VERIF_DEBUG") != nullptr;
+            if (dbg)
+                fprintf(stderr, "CASE %s\n", s.c_str());
+        }
         void end_case(const Verdict& v)
         {
             if (!counting)
